@@ -102,14 +102,11 @@ var initAllowed = []string{
 	"github.com/PowerDNS/lmdb-go/lmdbscan",
 	"io",
 	"errors",
-	"strconv",
-	"context",
 	"unicode/utf8",
 	"math/bits",
 	"encoding/binary",
 	"bytes",
 	"strings",
-	"os",
 	"github.com/PowerDNS/simpleblob",
 }
 
